@@ -117,6 +117,7 @@ func drive() {
 		nonUTF8String:   e.Quarantined("nonutf8-string"),
 		staticInClosure: e.Quarantined("undef-class-static-in-closure"),
 		altLooseLayout:  e.Quarantined("alt-loose-layout"),
+		htmlMLInterp:    e.Quarantined("html-mlinterp-fault"),
 	}
 
 	// phase 1: span invariants
@@ -189,6 +190,7 @@ func regressionSpanCases() []spanCase {
 		mk("bs-newline-nowdoc", "script", "$s = <<<'EOT'\na \\\nb\nEOT;\n$t = 1;\n"),
 		mk("bs-newline-interp", "script", "$a = 1;\n$s = \"x {$a}\\\n$a \\\n\";\n$t = 1;\n"),
 		mk("bs-bs-newline", "script", "$s = \"a\\\\\nb\";\n$t = 1;\n"),
+		mk("html-comment-ml", "script", "<!DOCTYPE html>\n<html>\n<!-- a\nb\nc -->\n<body class=\"x\">t</body>\n</html>\n"),
 		mk("plain", "script", "$a = 1;\n$b = \"x\ny\";\necho $a;\n"),
 	}
 }
@@ -273,6 +275,23 @@ func (d *driver) spanCases() {
 			cases = append(cases, spanCase{ID: fmt.Sprintf("prefix/%s/gen%d/%s", px.Name, i, m), Family: "prefix", Mode: m, Src: []byte(px.Text + src)})
 		}
 		flush(false)
+	}
+	flush(true)
+
+	// `<!DOCTYPE` documents: the HtmlLexer path, every construct in a multi-line form
+	r = e.Rand("span-html")
+	for i, n := 0, e.Pick(2500, 30000); i < n; i++ {
+		src := genHTMLDoc(r)
+		cases = append(cases, spanCase{ID: fmt.Sprintf("html/%d/script", i), Family: "html", Mode: "script", Src: []byte(src)})
+		if r.Intn(4) == 0 {
+			cases = append(cases, spanCase{ID: fmt.Sprintf("html/%d/template", i), Family: "html", Mode: "template", Src: []byte(src)})
+		}
+		flush(false)
+	}
+	// one document per element kind, whatever the seed
+	for _, k := range htmlElementKinds {
+		src := "<!DOCTYPE html>\n<html>\n" + htmlElement(e.Rand("span-html-fixed/"+k), k, 0) + "<p id=\"after\">x</p>\n</html>\n"
+		cases = append(cases, spanCase{ID: "html/fixed/" + k, Family: "html", Mode: "script", Src: []byte(src)})
 	}
 	flush(true)
 
@@ -637,6 +656,9 @@ func (d *driver) errlocRegression() {
 		mk("php", false, false, []chunk{{Kind: "alt-if", Text: "if (\n    $v0 > 0\n):\n$k1 = 1;\nelseif (\n    $v0 < 0\n):\n$k1 = 2;\nendif;\n"}}, "throw"),
 		mk("php", false, false, []chunk{{Kind: "alt-while", Text: "$k2 = 1;\nwhile (\n    $k2 > 0\n):\n$k2--;\nendwhile;\n"}}, "undef-func"),
 		mk("zy", false, false, []chunk{{Kind: "bs-newline", Text: "$k3 = \"a\\\nb\\\nc\";\n$k4 = 'a\\\nb';\n"}}, "throw"))
+	for _, hk := range htmlFaultKinds {
+		progs = append(progs, &program{Mode: "html", Fault: htmlFault(e.Rand("errloc-regress-html/"+hk), hk)})
+	}
 	sc := mk("php", false, false, nil, "undef-class-static")
 	sc.Wrap = "closure"
 	progs = append(progs, sc)
@@ -696,6 +718,29 @@ func (d *driver) errloc() {
 			}
 		}
 		d.judgeAll(cases, "matrix")
+	}
+	// documents on the HtmlLexer path: multi-line HTML constructs in front of a failing interpolation.
+	// An element kind is used only if a document holding it alone still reports the fault (baseline).
+	{
+		var usable []string
+		for _, k := range htmlRunnableKinds {
+			rr := e.Rand("errloc-html-baseline/" + k)
+			p := &program{Mode: "html", Head: []chunk{{Kind: "html:" + k, Text: htmlElement(rr, k, 1)}}, Fault: htmlFault(rr, "html-interp-method")}
+			if v, _, _ := judge(e, p, p.Fault.Nonce); v == locOK || v == locWrong {
+				usable = append(usable, k)
+			} else {
+				d.locNotes = append(d.locNotes, "html element kind "+k+" not used in front of a fault: the document does not report the planted fault")
+			}
+		}
+		var cases []*locCase
+		if len(usable) > 0 {
+			rr := e.Rand("errloc-html")
+			for i, n := 0, e.Pick(400, 4000); i < n; i++ {
+				p := genHTMLProgram(rr, usable, d.q)
+				cases = append(cases, &locCase{idx: i, p: p, msg: p.Fault.Nonce})
+			}
+		}
+		d.judgeAll(cases, "html")
 	}
 	r := e.Rand("errloc")
 	n := e.Pick(3000, 30000)
@@ -785,6 +830,9 @@ func (d *driver) judgeAll(cases []*locCase, family string) {
 		ext := "zy"
 		if min.Mode == "php" {
 			ext = "php"
+		}
+		if min.Mode == "html" {
+			ext = "html"
 		}
 		e.Violation(key, what, ext, []byte(msrc))
 	}
